@@ -84,6 +84,8 @@ def program_scripts(tier):
     add('X1 = X11 + X1[-1] + X[1] + {X_1}', 'names')
     # offsets of ten and more; left-hand sides with a lead or a lag (the assignment lands in another period than t)
     add('Y = S[-12] + 0.5 * Y[-10] + X[11]', 'offsets')
+    add('Y = 0.5 * X + <e>[-2] + <u>[1]', 'offsets')           # the deepest lag / furthest lead sits on error terms only
+    add('Y = {a}[-3] * X + Z[2]', 'offsets')                     # ... on a parameter
     add('K[1] = 0.875 * K + I\nI = 0.25 * K[-1] + X', 'lhs-offsets')
     add('Y[-1] = 0.5 * X + Z[1]\nW[2] = Y[-1] + W', 'lhs-offsets')
     for n in (30, 60):
@@ -230,7 +232,8 @@ def compare_models(Py, F, tier, acc=None):
                 note('solve_t:iterations', dict(t=t, kw=kw, iterations=[a.iterations.tolist(), b.iterations.tolist()]))
         # the span holds the label 0 (a falsy label) at position 2: an explicit start=0 / end=0 is a request like any other
         lab = list(range(-2, L - 2))
-        for start, end, offset, failures, max_iter in itertools.product((None, 0, lab[Py.LAGS + 1]), (None, 0, lab[L - 2 - Py.LEADS]), (0, -1), ('raise', 'ignore'), (3, 60)):
+        # (the first and the last label: infeasible whenever the model has a lag / a lead - both back-ends must refuse alike)
+        for start, end, offset, failures, max_iter in itertools.product((None, 0, lab[Py.LAGS + 1], lab[0]), (None, 0, lab[L - 2 - Py.LEADS], lab[-1]), (0, -1), ('raise', 'ignore'), (3, 60)):
             a, b = fill(Py(lab), vec, L), fill(F(lab), vec, L)
             kw = dict(start=start, end=end, max_iter=max_iter, tol=1e-9, offset=offset, failures=failures)
             ra, rb = outcome(a.solve, **kw), outcome(b.solve, **kw)
